@@ -144,6 +144,7 @@ def dialect_classes(src):
         if isinstance(st, ast.ImportFrom) and st.module and st.level == 0:
             for a in st.names:
                 imports.setdefault(a.asname or a.name, (st.module, a.name))
+                imports.setdefault(a.name, (st.module, a.name))
     for d in DIALECTS:
         try:
             res = Interp.for_file(src, file).call_function(fn, [d], {}, Env())
